@@ -43,14 +43,20 @@ RULE = (
     "src_index), status(arbitrary query, shallow/expanded, with the index; trees read from the cache or, shallow, "
     "from the remote itself), delete_remote(external deletion of directory and/or file objects, preferring "
     "indexed directories), reopen (close + get_index again, fresh store objects) and, rarely, delete_cache (file "
-    "objects vanish from the cache so that later pushes fail for lack of a source). Invariants after "
+    "objects vanish from the cache so that later pushes fail for lack of a source). Any push / fetch / status "
+    "call may additionally be interrupted at the n-th (n in 1..4) write transaction of the remote index (hook on "
+    "the transact() of the diskcache Index behind the handle in use: a BaseException = process kill before that "
+    "transaction, or diskcache Timeout -> ObjectDBError), after which the same or a reopened handle is used; "
+    "delete_remote can also remove a whole tree (directory object + every file it lists). Invariants after "
     "every step, from os.walk: every directory id a status answer (direct, or seen through validate_status "
     "inside push/fetch) reports as existing in the remote is in the remote at that moment; every file id so "
     "reported is in the remote, was delivered earlier, or is listed by a directory object that is there; every "
     "id held by the index was seen in the remote at some earlier point or is listed by a directory object "
     "present now; dir_hashes() are exactly the '.dir' ids held; after a call that queried >= 1 directory while the "
     "index held a directory absent from the remote, the index holds no absent directory and only files listed "
-    "by directories it holds; exists/missing partition the expanded query; index contents survive reopen. "
+    "by directories it holds; after ANY call that queried >= 1 directory (interrupted or not) the index holds no "
+    "id that is neither in the remote nor listed by a directory object present there; exists/missing partition "
+    "the expanded query; index contents survive reopen. "
     "Non-trivial = a failed/aborted transfer or an effective external deletion precedes a status evaluation "
     "with the index; distinct = SHA-1 of the case JSON / executed trace."
 )
@@ -68,6 +74,8 @@ ASSUMPTIONS = [
     "uploads into a local store complete at os.replace/os.rename/os.link/os.symlink onto the object path "
     "(that is where faults and aborts are injected)",
     "a fetch is issued closed and shallow with cache_odb holding the directory objects, as index.fetch does",
+    "an interrupted index update is modelled at transaction granularity (sqlite commits are atomic): the call "
+    "dies on entering its n-th ObjectDBIndex write transaction; index.clear() is not interrupted",
 ]
 
 _ZEROS = None
@@ -361,7 +369,7 @@ def run(ctx):
     total = ctx.budget_s
     if total:
         ctx.budget_s = total * 0.5
-    ok = ctx.run_given(cases(), run_case, ctx.n(quick=110, thorough=2000))
+    ok = ctx.run_given(cases(), run_case, ctx.n(quick=110, thorough=1500))
     ctx.budget_s = total
     if ok and ctx.failure is None:
         run_trace_machine(ctx, IndexMachine, ctx.n(quick=70, thorough=1000), 12)
